@@ -207,10 +207,26 @@ class SymBuf(bytes):
                 off = off + len(s)
         return -1
 
+    def _window(self, a):
+        """(buffer restricted to [start:end], start) for the optional bounds of find/index/..."""
+        start = a[0] if len(a) > 0 and a[0] is not None else 0
+        end = a[1] if len(a) > 1 else None
+        if len(a) > 2 or start < 0 or (end is not None and end < 0):
+            raise HarnessError("search bounds %r" % (a,))
+        n = self.__len__()
+        if start > n:
+            return None, start
+        win = self[start:] if end is None else self[start:end]
+        return win, start
+
     def find(self, needle, *a):
-        if a:
-            raise HarnessError("find with bounds")
-        return self._find(needle)
+        if not a:
+            return self._find(needle)
+        win, start = self._window(a)
+        if win is None:
+            return -1
+        i = win._find(needle) if type(win) is SymBuf else bytes(win).find(needle)
+        return -1 if i < 0 else start + i
 
     def __contains__(self, needle):
         return self._find(needle) >= 0
@@ -269,9 +285,13 @@ class SymBuf(bytes):
         return -1
 
     def rfind(self, needle, *a):
-        if a:
-            raise HarnessError("rfind with bounds")
-        return self._rfind(needle)
+        if not a:
+            return self._rfind(needle)
+        win, start = self._window(a)
+        if win is None:
+            return -1
+        i = win._rfind(needle) if type(win) is SymBuf else bytes(win).rfind(needle)
+        return -1 if i < 0 else start + i
 
     def rindex(self, needle, *a):
         i = self.rfind(needle, *a)
